@@ -620,3 +620,35 @@ N.append({'id': 'py-mode-block-skips-when-already-as-requested', 'file': 'optree
 # (negation normal form: cxx_frontend.normalise_negations, py_frontend.normalise_negations) and
 # the validation text of the arm descriptors is rendered the same way.
 N.append({'id': 'conditions-through-their-negations', 'generator': 'demorgan', 'file': None, 'edits': []})
+
+# Python: every `_C.<fn>(a, b, c)` passes by keyword what the binding lets it pass by keyword
+# (39 calls).  The first run raised alarms in D1, D4 and G3, which read the arguments of engine
+# calls by position; they now bind them through the binding table (bridge.engine_call_args).
+N.append({'id': 'py-engine-calls-by-keyword', 'generator': 'py-c-keywords', 'file': None, 'edits': []})
+
+# C++: 148 block-scope locals lose their `const` (nothing assigns to them; the rewritten tree
+# passes the test suite).  The first run raised an alarm in M8 (a snapshot of an output size had to
+# be declared const); the IR's resolution of bool / kind locals had the same dependence.  Both now
+# ask whether anything in the function writes the local (common.effectively_const).
+N.append({'id': 'cxx-locals-lose-their-const', 'generator': 'drop-const', 'file': None, 'edits': []})
+
+# two adjacent guards with the same exit and call-free conditions change places (2 C++ pairs in
+# IsPrefix / EqualTo; no Python site qualifies).  Silent at the first run.
+N.append({'id': 'independent-guards-swapped', 'generator': 'swap-guards', 'file': None, 'edits': []})
+
+# unpickling: the registry lookup goes through a local lambda that takes the namespace (the
+# behaviour-preserving half of seed j11, which called the lambda with "" first).
+N.append({'id': 'cxx-unpickle-lookup-through-a-lambda', 'file': 'src/treespec/serialization.cpp', 'edits': [(
+    """                if (none_is_leaf) [[unlikely]] {
+                    node.custom =
+                        PyTreeTypeRegistry::Lookup<NONE_IS_LEAF>(t[4], registry_namespace);
+                } else [[likely]] {
+                    node.custom =
+                        PyTreeTypeRegistry::Lookup<NONE_IS_NODE>(t[4], registry_namespace);
+                }""",
+    """                const py::object cls = t[4];
+                const auto lookup = [&cls, none_is_leaf](const std::string& ns) {
+                    return none_is_leaf ? PyTreeTypeRegistry::Lookup<NONE_IS_LEAF>(cls, ns)
+                                        : PyTreeTypeRegistry::Lookup<NONE_IS_NODE>(cls, ns);
+                };
+                node.custom = lookup(registry_namespace);""")]})
